@@ -464,10 +464,54 @@ def spec_text(spec: dict, view_langs) -> dict:
 # ----------------------------------------------------------------------------- generators
 
 
+ALL_LANGS = LANG_POOL + ["xx", "zz"]
+
+
 def marker(sheet, i, kind, lang):
-    ab = {"label": "L", "hint": "H", "guidance_hint": "G", "constraint_message": "C", "required_message": "R"}
-    tag = f"{sheet}{i}{ab.get(kind, kind)}_{'u' if lang is None else lang}"
+    """Distinct text per (sheet, row, kind, language).  It must not contain any language name: merge_dicts
+    tests `default_key in dict_b` on *strings* too (a substring test), which would mask the nested-default shape."""
+    ab = {"label": "L", "hint": "H", "guidance_hint": "G", "constraint_message": "C", "required_message": "R",
+          "image": "I", "audio": "A", "video": "V", "big-image": "B"}
+    li = 0 if lang is None else 1 + ALL_LANGS.index(lang) if lang in ALL_LANGS else 99
+    tag = f"{sheet}{i}{ab[kind]}{li}"
     return tag + (".png" if kind in ("image", "big-image") else ".mp3" if kind == "audio" else ".mp4" if kind == "video" else "")
+
+
+def nested_default_hits(case: dict):
+    """[(sheet, row index, kind)] where merge_dicts nests {dl: {dl: text}}: within one row and one translatable
+    column group, the unsuffixed cell, a cell suffixed with another language and then the cell suffixed with the
+    default language (in column order: the default-language cell after both others).  merge_dicts then merges two
+    *strings* under the default key.  On the survey sheet the conversion dies (C17's finding, reported by the C07
+    builder); on the choices sheet the text is silently filed under form=<language> and lost (C08 finding F39)."""
+    dl = case["settings"].get("default_language") or case["arg_dl"] or "default"
+    hits = []
+    for sheet in ("survey", "choices"):
+        double = any("::" in h for h in case[sheet + "_cols"])
+        for i, row in enumerate(case[sheet]):
+            st = {}
+            for h, v in row.items():
+                if v in (None, ""):
+                    continue
+                r = read_header(h, double)
+                if not r:
+                    continue
+                k, lang = r
+                u, other = st.get(k, (False, False))
+                if lang is None:
+                    u = True
+                elif lang == dl:
+                    if u and other and dl not in v:
+                        hits.append((sheet, i, k))
+                    u = False  # the suffixed cell replaces / absorbs the unsuffixed one from here on
+                else:
+                    other = True
+                st[k] = (u, other)
+    return hits
+
+
+def nested_default_shape(case: dict) -> bool:
+    """the hits that crash the conversion (survey sheet: any kind; choices sheet: media kinds — KeyError 'text')"""
+    return any(h[0] == "survey" or h[2] in MEDIA_KINDS for h in nested_default_hits(case))
 
 
 def random_form(rng, big=False) -> dict:
